@@ -2581,12 +2581,19 @@ class LinearOperator(object):
         new_kwargs = {}
         for arg in self._args:
             if hasattr(arg, "to"):
-                new_args.append(arg.to(dtype=dtype, device=device))
+                # Only cast floating point arguments to a floating point dtype (index / mask tensors keep theirs)
+                if dtype is None or not hasattr(arg, "dtype") or arg.dtype.is_floating_point == dtype.is_floating_point:
+                    new_args.append(arg.to(dtype=dtype, device=device))
+                else:
+                    new_args.append(arg.to(device=device))
             else:
                 new_args.append(arg)
         for name, val in self._kwargs.items():
             if hasattr(val, "to"):
-                new_kwargs[name] = val.to(dtype=dtype, device=device)
+                if dtype is None or not hasattr(val, "dtype") or val.dtype.is_floating_point == dtype.is_floating_point:
+                    new_kwargs[name] = val.to(dtype=dtype, device=device)
+                else:
+                    new_kwargs[name] = val.to(device=device)
             else:
                 new_kwargs[name] = val
         return self.__class__(*new_args, **new_kwargs)
